@@ -195,6 +195,7 @@ def driver(t, m, mi, others):
     if m["kind"] == "oneway":
         w('        let wire = new_wire(0);')
         w('        let mut conn = Connection::new(VSocket(wire.clone()));')
+        w('        let ctx = &with_history(ctx, warm_up(&mut conn, &wire, rng));')
         w(f'        let res = vnet::catch(|| vnet::block_on(conn.{m["name"]}({callargs}), 8).map(|r| r.is_ok()));')
         w('        check_frames(rep, "C12", ctx, &wire, &[&expect], res.as_ref().map(|_| ()).map_err(|e| e.clone()));')
         w('        if let Ok(Some(false)) | Ok(None) = res { rep.violation("C12/oneway-method-did-not-complete", format!("{ctx}: {res:?}"), json!({"monitor": "c12", "ctx": ctx})); }')
@@ -202,8 +203,9 @@ def driver(t, m, mi, others):
     elif m["kind"] == "plain":
         w(f'        let (frame, what) = reply_frame(rng, "{t["iface"]}", {str(unit).lower()}, false);')
         w('        let wire = new_wire(0);')
-        w('        wire.borrow_mut().push(Rx::Bytes(frame.clone()));')
         w('        let mut conn = Connection::new(VSocket(wire.clone()));')
+        w('        let ctx = &with_history(ctx, warm_up(&mut conn, &wire, rng));')
+        w('        wire.borrow_mut().push(Rx::Bytes(frame.clone()));')
         w(f'        let got = vnet::catch(|| match vnet::block_on(conn.{m["name"]}({callargs}), 8) {{')
         w('            None => "stalled".to_string(),')
         w('            Some(Ok(Ok(o))) => format!("ok:{}", serde_json::to_value(&o).unwrap()),')
@@ -228,8 +230,9 @@ def driver(t, m, mi, others):
     else:  # more
         w(f'        let (frames, whats) = stream_frames(rng, "{t["iface"]}", {str(unit).lower()});')
         w('        let wire = new_wire(0);')
-        w('        for f in &frames { wire.borrow_mut().push(Rx::Bytes(f.clone())); }')
         w('        let mut conn = Connection::new(VSocket(wire.clone()));')
+        w('        let ctx = &with_history(ctx, warm_up(&mut conn, &wire, rng));')
+        w('        for f in &frames { wire.borrow_mut().push(Rx::Bytes(f.clone())); }')
         w('        let got = vnet::catch(|| {')
         w(f'            let st = match vnet::block_on(conn.{m["name"]}({callargs}), 8) {{ Some(Ok(s)) => s, Some(Err(e)) => return vec![format!("call-failed:{{e:?}}")], None => return vec!["stalled".to_string()] }};')
         w('            let mut st = core::pin::pin!(st);')
@@ -258,6 +261,7 @@ def driver(t, m, mi, others):
         w(f'        let expect = {expect};')
         w('        let wire = new_wire(0);')
         w('        let mut conn = Connection::new(VSocket(wire.clone()));')
+        w('        let ctx = &with_history(ctx, warm_up(&mut conn, &wire, rng));')
         w('        let res = vnet::catch(|| {')
         tf = "Pt, Value, Value" if m["style"] == "generic" else "Value, Value"
         w(f'            let chain = conn.chain_{m["name"]}::<{tf}>({callargs}).map_err(|e| format!("{{e:?}}"))?;')
@@ -293,6 +297,7 @@ def driver(t, m, mi, others):
             w(f'        let oexpect = {oexp};')
             w('        let wire = new_wire(0);')
             w('        let mut conn = Connection::new(VSocket(wire.clone()));')
+            w('        let ctx = &with_history(ctx, warm_up(&mut conn, &wire, rng));')
             w('        let res = vnet::catch(|| {')
             otf = "Pt, Value, Value" if o["style"] == "generic" else "Value, Value"
             w(f'            let chain = conn.chain_{o["name"]}::<{otf}>({ocall}).map_err(|e| format!("{{e:?}}"))?;')
